@@ -115,6 +115,10 @@ def top(reason: str) -> Term:
 # results of calls the analyser has no model for, TOP, attributes of unmodelled objects.  Filled by Interp.run;
 # read by Report.finish, which never reports a VIOLATION while the analysis itself was imprecise.
 OPAQUE_SEEN: Dict[str, Tuple[int, str]] = {}
+# Constructs met by the interpreter that make its results unreliable in a specific, nameable way:
+#   CACHED  - a repository function with a cache decorator was inlined (the interpreter does not model memoisation)
+#   ONESHOT - a module-level one-shot iterator (map/filter/zip/generator/iter/reversed object) is consumed in a function
+HAZARDS: Dict[Tuple[str, str], str] = {}
 # markers that occur on the unchanged tree and were read: (kind, name) -> why harmless
 OPAQUE_BENIGN = {
     "EXTMETH:category": "device_type.category on the path where the model lookup returned None (guarded by `device_type and`)",
@@ -145,6 +149,9 @@ def opaque_markers(v: Any, acc: set, seen: Optional[set] = None, depth: int = 0)
         if len(v) == 3 and v[0] == "extmeth" and isinstance(v[2], str):
             # a field of a modelled pure value (struct_time.tm_hour, ...) is a projection, not an unknown
             x = v[1]
+            # (also through method chains on such a value: datetime.now().astimezone().tzinfo)
+            while isinstance(x, tuple) and x[:1] == ("app",) and isinstance(x[1], str) and x[1].startswith(".") and len(x) > 2:
+                x = x[2]
             if not (isinstance(x, tuple) and x[:1] == ("app",) and isinstance(x[1], str) and x[1].startswith(("time.", "datetime."))):
                 acc.add("EXTMETH:" + v[2])
         for x in v:
@@ -199,7 +206,7 @@ def imprecise(v: Any) -> Optional[str]:
             return f"{v[1]}(...) is modelled opaquely"
         if v and v[0] in IMPRECISE_TAGS:
             return f"{v[0]} value is modelled opaquely"
-        if len(v) == 3 and v[0] == "sym" and isinstance(v[1], str) and v[1].startswith("ret:"):
+        if len(v) == 3 and v[0] == "sym" and isinstance(v[1], str) and v[1].startswith(("ret:", "opq:")):
             return f"result of the unknown call {v[1][4:]}"
         for x in v:
             r = imprecise(x)
@@ -433,6 +440,16 @@ def int_range(v: Term) -> Optional[Tuple[Optional[int], Optional[int]]]:
         return (lo, hi)  # type: ignore[return-value]
     if isinstance(v, tuple) and v and v[0] == "app" and v[1] in ("crc_hqx", "binascii.crc_hqx"):
         return (0, 65535)
+    if isinstance(v, tuple) and v and v[0] == "app" and v[1] in ("add", "sub") and len(v) == 4:
+        ra, rb = int_range(v[2]), int_range(v[3])
+        if ra is not None and rb is not None and None not in ra and None not in rb:
+            return (ra[0] + rb[0], ra[1] + rb[1]) if v[1] == "add" else (ra[0] - rb[1], ra[1] - rb[0])
+        return None
+    if isinstance(v, tuple) and v and v[0] == "app" and v[1] == ".bit_length" and len(v) == 3:
+        r = int_range(v[2])
+        if r is not None and r[0] is not None and r[1] is not None and r[0] >= 0:
+            return (int(r[0]).bit_length(), int(r[1]).bit_length())
+        return (0, None)
     if isinstance(v, tuple) and v and v[0] == "app" and v[1] in ("mod", "floordiv") and len(v) == 4 and is_c(v[3]) and isinstance(v[3][1], int) and v[3][1] > 0:
         r = int_range(v[2])
         if v[1] == "mod" and r is not None:
